@@ -72,6 +72,18 @@ CLAIMED.update({
              "not combined with a user-supplied structure because the statement does not settle them (DESIGN.md).",
         design="DESIGN.md section 4 (C19)",
     ),
+    "C18": dict(
+        category="exploration",
+        technique="deterministic simulation of multi-invocation histories (profile written with parameters -> process restart with another hash seed -> loaded; CLI / API / options section / options+explicit / debug-archive routes) against a typed reference parameter table",
+        text="Seeded plans choose 1-5 documented parameters, a spelling the statement allows (string in any letter case, "
+             "1/0, native bool / int / float), a route out of seven, optionally an unknown name or a malformed value. "
+             "The Profile object the run actually used is read at the stage seam (or the written YAML is parsed back in "
+             "another process) and compared, value and type, with a reference table applying 'explicit beats options "
+             "section beats default'. Sampling over (route x parameter x spelling).",
+        note="Trusted: the reference table (PARAMS in c18.py mirrors the documented attributes of aldy.profile.Profile). "
+             "Ambiguous cases the statement does not settle are not generated.",
+        design="DESIGN.md section 4 (C18)",
+    ),
 })
 
 NA = {
